@@ -1,0 +1,74 @@
+//go:build verif
+
+package extractor
+
+// C10 safety sweep (govc `sweep`): index / slice / division expressions on text the remote
+// server controls must not panic. Comment-only file. Functions that already carry a verified
+// contract (C19) get their safety obligations counted for C10 through `attr safety C10` there.
+
+//@ func extractFromScriptContent
+//@   property C10
+//@   opaque
+//@   sweep idx slice div
+//@ func parseAttr
+//@   property C10
+//@   opaque
+//@   sweep idx slice div
+//@ func isContentType
+//@   property C10
+//@   opaque
+//@   sweep idx slice div
+//@ func resolveURL
+//@   property C10
+//@   opaque
+//@   sweep idx slice div
+//@ func extractBaseTag
+//@   property C10
+//@   opaque
+//@   sweep idx slice div
+//@ func HTMLAssets$1
+//@   property C10
+//@   opaque
+//@   sweep idx slice div
+//@   loop range invariant [groups] forall(j, 0, len(matches), len(matches[j]) == 2)
+//@ func HTMLAssets$2
+//@   property C10
+//@   opaque
+//@   sweep idx slice div
+//@ func HTMLAssets$3
+//@   property C10
+//@   opaque
+//@   sweep idx slice div
+//@ func HTMLAssets$4
+//@   property C10
+//@   opaque
+//@   sweep idx slice div
+//@ func HTMLAssets$5
+//@   property C10
+//@   opaque
+//@   sweep idx slice div
+//@   loop range invariant [groups] forall(j, 0, len(matches), len(matches[j]) == 2)
+//@ func HTMLAssets$6
+//@   property C10
+//@   opaque
+//@   sweep idx slice div
+//@ func HTMLAssets$7
+//@   property C10
+//@   opaque
+//@   sweep idx slice div
+//@ func HTMLAssets$8
+//@   property C10
+//@   opaque
+//@   sweep idx slice div
+//@ func HTMLAssets$9
+//@   property C10
+//@   opaque
+//@   sweep idx slice div
+//@ func HTMLOutlinks$1
+//@   property C10
+//@   opaque
+//@   sweep idx slice div
+//@ func sortURLs
+//@   property C10
+//@   opaque
+//@   sweep idx slice div
